@@ -11,6 +11,7 @@ func init() {
 	plans["C01"] = propPlan{Scenarios: []string{"decoder"}, QuickRuns: 4000, ThoroughDur: 10 * time.Minute}
 	plans["C20"] = propPlan{Scenarios: []string{"describe"}, QuickRuns: 4000, ThoroughDur: 10 * time.Minute}
 	plans["C12"] = propPlan{Scenarios: []string{"groups"}, QuickRuns: 4000, ThoroughDur: 10 * time.Minute}
+	plans["C19"] = propPlan{Scenarios: []string{"dpt"}, QuickRuns: 1500, ThoroughDur: 6 * time.Minute}
 	plans["C13"] = propPlan{Scenarios: []string{"router"}, QuickRuns: 4000, ThoroughDur: 10 * time.Minute}
 	plans["C14"] = propPlan{Scenarios: []string{"router"}, QuickRuns: 4000, ThoroughDur: 10 * time.Minute}
 }
